@@ -228,6 +228,13 @@ impl ThreadLocalCache {
             }
         }
 
+        // A block of a size class is later recycled for ANY size of that class:
+        // carve the full class size, not just the requested size
+        let size = match self.size_to_list_index(size) {
+            Some(list_index) => TLS_SIZE_CLASSES[list_index],
+            None => size,
+        };
+
         // Try hot area allocation
         if let Some(ref mut hot_area) = self.hot_area {
             if let Some(ptr) = hot_area.try_allocate(size) {
